@@ -13,6 +13,7 @@ skips = {
         "C04/m1": "manifests only for a target exponent of MaxInt32, outside the package limits (out of the property's domain)",
         "C17/m1": "manifests only for Exponent == MinInt32, outside the package limits (out of the property's domain)"},
     "-r3": {},
+    "-r4": {"C20/m2": "not confirmed on the tree as repaired in between: with the patch one stable baseline test no longer completes (it was detected by C04.R6 when tried)"},
 }
 skip = skips.get(suffix, {})
 rows = []
